@@ -50,11 +50,8 @@ where
     /// Set the value of the notified field and notify all listeners.
     pub async fn set(&mut self, value: T) {
         self.value = value.clone();
-        self.tx
-            .broadcast_direct(value.into())
-            .await
-            // Since we enabled overflow and disabled awaiting active receivers, this can't fail.
-            .expect("Failed to broadcast value");
+        // Failure means that there are currently no receivers and that's ok.
+        let _ = self.tx.broadcast_direct(value.into()).await;
     }
 
     /// The value of the notified field.
